@@ -250,6 +250,29 @@ pub fn bounds(ctx: &Ctx) {
             (p, g) => bad.push(format!("{what}: presence expected {p}, got {}", g.is_some())),
         }
     };
+    // "stored": the bounds are judged as the file states them. The element names of the file are
+    // read by the independent decoder; the crate's own reader must report the same numbers (a
+    // writer and a reader that agree on a private naming would otherwise go unnoticed).
+    {
+        let rep = e57spec::decode::validate(&w.bytes, &Default::default());
+        if let Some(sm) = rep.scene.as_ref().and_then(|s| s.clouds.first()).map(|c| c.meta.clone()) {
+            let pair = |what: &str, a: &Option<[Option<f64>; 6]>, b: &Option<[Option<f64>; 6]>, bad: &mut Vec<String>| {
+                let same = match (a, b) {
+                    (None, None) => true,
+                    (Some(x), Some(y)) => x.iter().zip(y.iter()).all(|(p, q)| num_eq(*p, *q)),
+                    _ => false,
+                };
+                if !same {
+                    bad.push(format!("{what}: the file states {a:?} (element names read by the independent decoder), the reader reports {b:?}"));
+                }
+            };
+            pair("cartesianBounds-as-stored", &sm.cartesian_bounds, &got.cartesian_bounds, &mut bad);
+            pair("sphericalBounds-as-stored", &sm.spherical_bounds, &got.spherical_bounds, &mut bad);
+            if sm.index_bounds != got.index_bounds {
+                bad.push(format!("indexBounds-as-stored: the file states {:?}, the reader reports {:?}", sm.index_bounds, got.index_bounds));
+            }
+        }
+    }
     check6(&mut bad, "cartesianBounds", has("cartesianX"), &got.cartesian_bounds, ["cartesianX", "cartesianY", "cartesianZ"]);
     check6(&mut bad, "sphericalBounds", has("sphericalAzimuth"), &got.spherical_bounds, ["sphericalRange", "sphericalElevation", "sphericalAzimuth"]);
     let idx_present = has("rowIndex") || has("columnIndex") || has("returnIndex");
